@@ -1239,6 +1239,10 @@ func (ctx Ctx) exprSpecial(e ast.Expr, isSpecial bool) coq.Expr {
 	case *ast.StarExpr:
 		return ctx.derefExpr(e.X)
 	case *ast.TypeAssertExpr:
+		if isSpecial {
+			// v, ok := x.(T) would bind the pair (v, ok) to the single value x
+			ctx.unsupported(e, "type assertion with ok result")
+		}
 		// TODO: do something with the type
 		return ctx.expr(e.X)
 	case *ast.FuncLit:
